@@ -98,6 +98,9 @@ def generate(seed, tier):
     for t in corpus.malformed_texts() + [x for x in corpus.huge_int_texts() if 19 < len(x) < 5200]:
         cases.append({'cfg': base, 'text': t})
     for mb in (1, 2):
+        cseq = dict(base, max_batch=mb, seq=True)
+        cases.append({'cfg': cseq, 'text': json.dumps([{'jsonrpc': '2.0', 'method': 'f', 'id': 1}, {'jsonrpc': '2.0', 'method': 'f', 'id': 2},
+                                                        {'jsonrpc': '2.0', 'method': 'ok', 'params': [1]}])})
         c = dict(base, max_batch=mb)
         cases.append({'cfg': c, 'text': json.dumps([{'jsonrpc': '2.0', 'method': 'f', 'id': 1}, {'jsonrpc': '2.0', 'method': 'f', 'id': 2}])})
     # the C01/C02 corpus under the standard configuration
